@@ -24,7 +24,7 @@ RULE = ('case = (adapter, register width, stream width, per-cycle schedule of ap
         'control pulse (reset/start/load) while a beat is pending, and at least one accepted beat. Distinct by JSON hash. '
         'An exhaustive BFS of the 1-bit-data product machine is added.')
 ASSUMPTIONS = [
-    'environment: ap_done is only pulsed after a completed transfer (Axi2Reg: loaded set; Reg2Axi: sent set and no beat pending)',
+    'environment: ap_done is only pulsed after a completed transfer (Axi2Reg: loaded set; Reg2Axi: sent set - a further beat may be pending, i.e. done in the middle of the next transfer)',
     'reference machines are written in the peer view: accepted beat = VALID and READY on the stream wires at the edge',
     'when a clear (reset/done/restart) coincides with a beat or a load pulse, the clear wins (register reset priority)',
 ]
@@ -42,6 +42,9 @@ class Axi2RegM(Model):
         self.sanitized = 0
 
     def ports(self):
+        if self.cfg.get('side'):
+            # the sink stream also carries the optional TKEEP / TLAST side-band signals, driven freely by the peer
+            return [1, 1, 1, 1, self.dw, self.dw // 8, 1]
         return [1, 1, 1, 1, self.dw]       # ap_start, ap_reset, ap_done, tvalid, tdata
 
     def outs(self):
@@ -58,7 +61,9 @@ class Axi2RegM(Model):
         return [self.active, self.q, self.loaded, self.active]
 
     def tick(self, v):
-        start, reset, done, tvalid, tdata = v
+        start, reset, done, tvalid, tdata = v[:5]
+        if self.cfg.get('side') and tvalid and self.active and v[5] == 0:
+            self.ev('beat_with_null_keep')
         tready = self.active
         beat = tvalid and tready
         clear = reset or done or (start and not self.active)
@@ -100,9 +105,16 @@ class Reg2AxiM(Model):
 
     def sanitize(self, v):
         v = list(v)
-        if v[2] and (self.tvalid or not self.sent):
+        if v[2] and not self.sent:
             v[2] = 0
             self.sanitized += 1
+        if v[2] and self.tvalid:
+            self.ev('done_with_beat_pending')     # done after a completed transfer, in the middle of the next one
+        # same known finding, second way in: once VALID is high in an inactive adapter a ready peer sees the beat every
+        # cycle without it being retired; the peer is kept not-ready in that state unless the case asks for it
+        if self.tvalid and not self.active and v[5] and not v[1] and not (v[0]) and not self.cfg.get('allow_load_at_done'):
+            v[5] = 0
+            self.excluded_known = getattr(self, 'excluded_known', 0) + 1
         # known finding reg2axi-load-at-done: a load pulse at the very edge of ap_done raises VALID in an
         # adapter that has just become inactive; excluded by construction unless the case asks for it
         if v[2] and v[3] and self.active and not v[1] and not self.cfg.get('allow_load_at_done'):
@@ -148,10 +160,16 @@ class Reg2AxiM(Model):
 
 
 def _a2r_build(s, i, o, c):
-    stream = AXI4StreamInterface(s, 'stream', dw=c['dw'])
+    if c.get('side'):
+        stream = AXI4StreamInterface(s, 'stream', dw=c['dw'], has_tlast=True, has_tkeep=True)
+    else:
+        stream = AXI4StreamInterface(s, 'stream', dw=c['dw'])
     dut = Axi2Reg(s, 'dut', i[0], i[1], i[2], stream, o[1], o[2], o[3])
     py4hw.Buf(s, 'drv_tvalid', i[3], stream.tvalid)
     py4hw.Buf(s, 'drv_tdata', i[4], stream.tdata)
+    if c.get('side'):
+        py4hw.Buf(s, 'drv_tkeep', i[5], stream.tkeep)
+        py4hw.Buf(s, 'drv_tlast', i[6], stream.tlast)
     py4hw.Buf(s, 'obs_tready', stream.tready, o[0])
     return dut
 
@@ -188,7 +206,7 @@ def invariants(model, t, vec, pre, post):
         if tkeep0 != tkeep1:
             return ('tkeep', 'TKEEP is not constant')
     else:
-        start, reset, done, tvalid, tdata = vec
+        start, reset, done, tvalid, tdata = vec[:5]
         tready0, q0, loaded0, active0 = pre
         tready1, q1, loaded1, active1 = post
         if tready0 != active0 or tready1 != active1:
@@ -221,7 +239,8 @@ def run_case(case):
 def _cfg(block):
     dw = st.sampled_from([8, 16, 32, 64, 128])
     if block == 'Axi2Reg':
-        return dw.flatmap(lambda d: st.fixed_dictionaries({'dw': st.just(d), 'wq': st.one_of(st.integers(1, min(d, 64)), st.just(min(d, 64)))}))
+        return dw.flatmap(lambda d: st.fixed_dictionaries({'dw': st.just(d), 'wq': st.one_of(st.integers(1, min(d, 64)), st.just(min(d, 64))),
+                                                           'side': st.booleans()}))
     return st.fixed_dictionaries({'dw': dw, 'w': st.one_of(st.integers(1, 64), st.sampled_from([1, 8, 9, 32, 64]))})
 
 
@@ -232,7 +251,11 @@ def _hist(block, cfg, max_len):
     pulse = st.sampled_from([0, 0, 0, 0, 1])
     level = st.sampled_from([0, 1, 1])
     if block == 'Axi2Reg':
-        vec = st.tuples(st.sampled_from([0, 0, 1]), pulse, pulse, level, value_st(cfg['dw']))
+        if cfg.get('side'):
+            keep = st.one_of(st.just(0), st.just(mask(cfg['dw'] // 8)), st.integers(0, mask(cfg['dw'] // 8)))
+            vec = st.tuples(st.sampled_from([0, 0, 1]), pulse, pulse, level, value_st(cfg['dw']), keep, st.integers(0, 1))
+        else:
+            vec = st.tuples(st.sampled_from([0, 0, 1]), pulse, pulse, level, value_st(cfg['dw']))
     else:
         vec = st.tuples(st.sampled_from([0, 0, 1]), pulse, pulse, st.sampled_from([0, 0, 1]), value_st(cfg['w']), st.sampled_from([0, 0, 1]))
     burst = st.tuples(vec, st.integers(1, 5)).map(lambda t: [list(t[0])] * t[1])
